@@ -47,16 +47,23 @@ TNext == \/ Consume(Cur.op = "AddHandler" /\ AddHandler(Cur.arg))
 TraceSpec == TInit /\ [][TNext]_tvars
 
 QueueIds == [i \in 1..Len(queue) |-> queue[i].id]
+\* Traces recorded by observing the repository's own tests see only public calls and callbacks: the ids that the
+\* harness's own recorder threads through the payload, and the pending queue, are unknown there (header.ids = FALSE):
+\* the callback log is then compared without ids and the queue is not compared.
+WithIds == Traces[tid].header.ids
+NoId(lg) == [i \in 1..Len(lg) |-> <<lg[i][2], lg[i][3]>>]
 \* the observation recorded after call l-1 must hold when that call has returned
 ObsOK == (Idle /\ l > 1) =>
             LET e == Evs[l - 1] IN
-            /\ ret = e.ret /\ log = e.log /\ enabled = e.enabled
-            /\ reg = ToSet(e.reg) /\ alive = ToSet(e.alive) /\ QueueIds = e.queue
+            /\ ret = e.ret /\ enabled = e.enabled
+            /\ (IF WithIds THEN log = e.log /\ QueueIds = e.queue ELSE NoId(log) = NoId(e.log))
+            /\ reg = ToSet(e.reg) /\ alive = ToSet(e.alive)
 \* while the call is still running, the callbacks made so far must be a prefix of the recorded log: wrong
 \* iteration orders are pruned at once, which keeps validation linear in the length of the trace
 PrefixOK == (~Idle /\ l > 1) =>
                LET e == Evs[l - 1] IN
-               /\ Len(log) <= Len(e.log) /\ \A i \in 1..Len(log) : log[i] = e.log[i]
+               /\ Len(log) <= Len(e.log)
+               /\ \A i \in 1..Len(log) : IF WithIds THEN log[i] = e.log[i] ELSE log[i][2] = e.log[i][2] /\ log[i][3] = e.log[i][3]
 \* per-trace high-water mark of consumed events (register tid; needs -workers 1)
 Track == ObsOK /\ PrefixOK /\ (Idle => TLCSet(tid, IF l > TLCGet(tid) THEN l ELSE TLCGet(tid)))
 
